@@ -1,7 +1,12 @@
 #!/usr/bin/env python3
 """Reference tables for C13 (special functions), generated ONCE with mpmath 1.3.0.
 
-usage:  /opt/veriftools/pyvenv/bin/python /verif/ref/c13/gen.py [-j N] [family ...]
+usage:  /opt/veriftools/pyvenv/bin/python /verif/ref/c13/gen.py [-j N] [--reuse] [family ...]
+
+--reuse: rows whose (function, arguments) are already present in the existing table of the
+family are copied from it instead of being recomputed (the generator is deterministic, so
+the result is byte-identical to a full regeneration as long as the functions below are
+unchanged); only new lattice points are evaluated.
 
 The list of arguments is produced by the harness itself (`go run ./cmd/c13 -points` in
 /verif/mc: every point of the quick and thorough lattices L1-L3 of
@@ -11,6 +16,15 @@ automatically where a consistency check fails) and written with 20 significant d
 (relative 5e-21 = 4e-5 u; the check's tolerances are >= 64 u) together with the
 sensitivity  sum_i |arg_i * df/darg_i / f|  (4 digits; "A<number>" = absolute
 sum_i |arg_i * df/darg_i| where f == 0).
+
+Robustness measures (all leave the values of rows that mpmath computes directly untouched):
+  polygamma, x < 0:  psi_safe() - recurrence to a positive argument at a working precision that
+                     exceeds the observed cancellation by 35 digits (mpmath's reflection returns
+                     reproducible garbage next to negative half-integers for even orders);
+  igam, a > 8192:    series below a / continued fraction above a, complement to Gamma(a),
+                     both compared where cheap (mpmath gives up with NoConvergence there);
+  bessel:            more terms on NoConvergence; I_{-n} = I_n and a Wronskian bound of the
+                     order-sensitivity next to large negative integer orders.
 
 Value tokens:  decimal | +ovf/-ovf (|v| >= 2^1024) | +udf/-udf (0 < |v| < 2^-1080)
                | pole (singular) | undef (not real-valued / outside the domain) | ninf (exactly -inf)
@@ -156,8 +170,40 @@ def poly(n, x):
     n = int(n)
     if x <= 0 and is_int(x):
         return "pole", "0"
-    f = mp.psi(n, x)
-    return val(f), sens(f, x * mp.psi(n + 1, x))
+    f = psi_safe(n, x)
+    return val(f), sens(f, x * psi_safe(n + 1, x))
+
+
+def psi_safe(n, x):
+    """psi_n(x) to >= 30 correct digits. For x < 0 mpmath's reflection cancels catastrophically
+    where the derivative of cot vanishes (even n at negative half-integers: the terms
+    n!/(x+k)^(n+1) on both sides of 0 are of size n! 2^(n+1) and cancel to psi_n(1-x); the
+    garbage is even reproducible across precisions, so comparing two precisions proves
+    nothing). Instead:  even n at a negative half-integer: psi_n(x) = psi_n(1-x) exactly;
+    otherwise psi_n(x) = (-1)^(n+1) n! sum_{k<K} (x+k)^-(n+1) + psi_n(x+K) with x+K in (0,1],
+    at a working precision that exceeds the observed cancellation by 35 digits."""
+    if x > 0:
+        return mp.psi(n, x)
+    if n % 2 == 0 and 2 * x == mp.floor(2 * x) and x != mp.floor(x):
+        return mp.psi(n, 1 - x)
+    K = int(mp.floor(-x)) + 1
+    if K > 20000:
+        raise ArithmeticError("psi_safe: K too large")
+    dps = DPS
+    try:
+        while dps <= 32 * 1024:
+            mp.dps = dps
+            terms = [mp.power(x + k, -(n + 1)) for k in range(K)]
+            fac = mp.factorial(n)
+            tail = mp.psi(n, x + K)
+            f = (1 if n % 2 else -1) * fac * mp.fsum(terms) + tail
+            M = fac * max(abs(t) for t in terms) + abs(tail)
+            if abs(f) >= M * mpf(10) ** -(dps - 35):
+                return f
+            dps *= 2
+    finally:
+        mp.dps = DPS
+    raise ArithmeticError("psi_safe: cancellation beyond 32k digits n=%s x=%s" % (n, x))
 
 
 def mgamma(k, x):
@@ -179,10 +225,69 @@ def integer(fn, n):
 
 # ---- incomplete gamma -------------------------------------------------------------
 
+BIG_A = 8192  # above this mpmath's hypergeometric machinery is slow or gives up (NoConvergence)
+
+
+def lower_series(a, x, tol):
+    """lower(a,x) = x^a e^-x / a * sum_{k>=0} x^k / ((a+1)...(a+k))   (all terms positive)"""
+    s = term = mpf(1)
+    k = 0
+    while True:
+        k += 1
+        term = term * x / (a + k)
+        s += term
+        if term < tol * s and x < a + k:
+            break
+        if k > 5000000:
+            raise ArithmeticError("lower_series")
+    return mp.exp(a * mp.log(x) - x) / a * s
+
+
+def upper_cf(a, x, tol):
+    """upper(a,x) = x^a e^-x / (x+1-a- 1(1-a)/(x+3-a- 2(2-a)/(x+5-a- ...))), modified Lentz; x >= a"""
+    tiny = mpf(10) ** -(3 * mp.dps)
+    b = x + 1 - a
+    f = b if b != 0 else tiny
+    C, D, k = f, mpf(0), 0
+    while True:
+        k += 1
+        an = -k * (k - a)
+        b += 2
+        D = b + an * D
+        if D == 0:
+            D = tiny
+        C = b + an / C
+        if C == 0:
+            C = tiny
+        D = 1 / D
+        delta = C * D
+        f *= delta
+        if abs(delta - 1) < tol:
+            break
+        if k > 5000000:
+            raise ArithmeticError("upper_cf")
+    return mp.exp(a * mp.log(x) - x) / f
+
+
 def igam_core(a, x):
-    L = mp.gammainc(a, 0, x)
-    U = mp.gammainc(a, x, mp.inf)
-    return L, U
+    if a <= BIG_A:
+        L = mp.gammainc(a, 0, x)
+        U = mp.gammainc(a, x, mp.inf)
+        return L, U
+    # large a: the smaller of the two functions directly (series below a, continued fraction
+    # above), the other one as the complement to Gamma(a) (no cancellation: it is >= ~Gamma/2);
+    # where both are cheap (a <= x <= 1.25 a) they are computed independently and compared
+    tol = mpf(10) ** -(mp.dps + 5)
+    G = mp.gamma(a)
+    if x < a:
+        L = lower_series(a, x, tol)
+        return L, G - L
+    U = upper_cf(a, x, tol)
+    if x <= a * 1.25:
+        L = lower_series(a, x, tol)
+        if abs((L + U) / G - 1) > mpf(10) ** -(mp.dps - 10):
+            raise ArithmeticError("igam series/cf disagree a=%s x=%s" % (a, x))
+    return G - U, U
 
 
 def igam(a, x):
@@ -226,11 +331,19 @@ def igam(a, x):
 def bessel_i(v, x):
     if x < 0:
         # integer order only: I_v(-x) = (-1)^v I_v(x)
-        r = mp.besseli(v, -x)
+        try:
+            r = mp.besseli(v, -x)
+        except (ValueError, mpmath.libmp.NoConvergence):
+            if not (v < 0):
+                raise
+            r = mp.besseli(-v, -x)  # I_{-n} = I_n (large negative integer orders defeat hypercomb)
         return -r if int(v) % 2 else r
     if v < 0 and is_int(v):
         v = -v  # I_{-n} = I_n (mpmath's hypercomb does not converge at the poles of 1/Gamma)
-    r = mp.besseli(v, x)
+    try:
+        r = mp.besseli(v, x)
+    except mpmath.libmp.NoConvergence:
+        r = mp.besseli(v, x, maxterms=10 ** 7)  # large order and argument: more terms, same sum
     if isinstance(r, mpmath.mpc) or hasattr(r, "imag") and r.imag != 0:
         raise ArithmeticError("complex besseli")
     return mp.re(r)
@@ -251,7 +364,17 @@ def bessel(v, x):
         dv = mpf(0)
     else:
         h = abs(v) * H
-        dv = v * (bessel_i(v + h, x) - bessel_i(v - h, x)) / (2 * h)
+        try:
+            dv = v * (bessel_i(v + h, x) - bessel_i(v - h, x)) / (2 * h)
+        except mpmath.libmp.NoConvergence:
+            if not (v < 0 and is_int(v)):
+                raise
+            # next to a large negative integer order the hypergeometric sums of mpmath give up;
+            # I_{-t} = I_t + (2/pi) sin(pi t) K_t  =>  d/dv I_v at v = -n is -(dI_t/dt(n) + 2 (-1)^n K_n),
+            # and K_n < 1/(x I_{n+1}) by the Wronskian (an upper bound is all a sensitivity needs)
+            n = -v
+            dn = (bessel_i(n + h, x) - bessel_i(n - h, x)) / (2 * h)
+            dv = n * (abs(dn) + 2 / (x * I1))
     s = abs(dx) + abs(dv)
     if I > 0:
         lg = mp.log(I)
@@ -332,6 +455,10 @@ def main():
     if args and args[0] == "-j":
         nproc = int(args[1])
         args = args[2:]
+    reuse = False
+    if args and args[0] == "--reuse":
+        reuse = True
+        args = args[1:]
     want = args or ORDER
     env = dict(os.environ, GOFLAGS="-mod=mod", GOPROXY="off", GOSUMDB="off", GOTOOLCHAIN="local", GODEBUG="goindex=0")
     pts = subprocess.check_output(["go", "run", "./cmd/c13", "-points"], cwd=MC, env=env, text=True).splitlines()
@@ -343,8 +470,16 @@ def main():
             continue
         lines = byfam.get(fam, [])
         t0 = time.time()
+        old = {}
+        path = os.path.join(HERE, fam + ".tsv.gz")
+        if reuse and os.path.exists(path):
+            for row in gzip.open(path, "rt").read().splitlines():
+                f = row.split("\t")
+                old["\t".join(f[:3])] = row
+        todo = [l for l in lines if l not in old]
         with Pool(nproc) as pool:
-            res = pool.map(work, lines, chunksize=64)
+            new = dict(pool.map(work, todo, chunksize=16))
+        res = [(l, old[l] if l in old else new[l]) for l in lines]
         bad = [r for _, r in res if r.startswith("ERROR")]
         if bad:
             sys.stderr.write("\n".join(bad[:20]) + "\n%d generator errors in %s\n" % (len(bad), fam))
@@ -354,7 +489,7 @@ def main():
         with gzip.GzipFile(fileobj=buf, mode="wb", compresslevel=9, mtime=0, filename="") as g:
             g.write(raw)
         open(os.path.join(HERE, fam + ".tsv.gz"), "wb").write(buf.getvalue())
-        print("%-8s %7d rows  %8d bytes gz  %.0f s" % (fam, len(lines), len(buf.getvalue()), time.time() - t0), flush=True)
+        print("%-8s %7d rows (%d computed)  %8d bytes gz  %.0f s" % (fam, len(lines), len(todo), len(buf.getvalue()), time.time() - t0), flush=True)
     # checksums of everything present
     with open(os.path.join(MC, "cmd", "c13", "sums.go"), "w") as f:
         f.write("// Code generated by /verif/ref/c13/gen.py; DO NOT EDIT.\n\npackage main\n\n")
